@@ -10,7 +10,7 @@ from vf.core import absval as av
 from vf.core import wire
 from vf.core.runner import Ctx, Tally
 from vf.core.smallscope import Fail, hkey, replay_case, run_universe
-from vf.core.universe import TypeCase, Universe, get_universe
+from vf.core.universe import TypeCase, Universe, fresh_variant, get_universe, lazy_variant
 
 LEVEL = "model_checking"
 ROUTES = ("ctor", "setattr", "inplace", "parse", "parse_unknown", "grow_after_len")
@@ -126,7 +126,12 @@ def oracle(u: Universe, tc: TypeCase, aval: Dict[str, Any], route: str, tally: T
 
 
 def routes_fn(tc: TypeCase, aval) -> tuple:
-    return ROUTES
+    r = ROUTES
+    if fresh_variant(tc.msg, aval):
+        r = r + ("ctor_fresh", "setattr_fresh")
+    if lazy_variant(tc.msg, aval):
+        r = r + ("lazy",)
+    return r
 
 
 def run(ctx: Ctx) -> None:
